@@ -54,7 +54,7 @@ Definition sidx_designates (sxs : list sidx) (k : nat) (p : N) : bool :=
 (* number the boxes 0,1,2,... in b_tag (what the harness does) *)
 Definition set_tag (b : topbox) (t : N) : topbox :=
   mkBox (b_kind b) t (b_size b) (b_hdr b) (b_first_offset b) (b_refs b) (b_stts_empty b)
-        (b_tfras b) (b_mfro b) (b_trafs b).
+        (b_tfras b) (b_mfro b) (b_trafs b) (b_traks b) (b_version b) (b_refid b) (b_timescale b) (b_ept b).
 
 Fixpoint number_from (n : N) (bs : list topbox) : list topbox :=
   match bs with
